@@ -107,6 +107,8 @@ public:
     static bool is_prime(const T &p) {
         if (p == T(1))
             return true;
+        if (p == T(2))
+            return true;
         T t = T(2);
 #ifdef PARMCB_INVARIANTS_CHECK
          assert( p >= t );
